@@ -24,9 +24,12 @@ func c16pflaggenA(nfields int, ptrAlphabet bool) {
 			shapes[i] = zzverif.Choose("shape"+strconv.Itoa(i), zzverif.GenNumNamedShapes())
 		}
 	}
-	gt, ok := zzverif.GenStructNamed(shapes)
+	var gt zzverif.GenType
+	var ok bool
 	if ptrAlphabet {
 		gt, ok = zzverif.GenStructPtr(shapes)
+	} else {
+		gt, ok = zzverif.GenStructNamed(shapes)
 	}
 	if !ok {
 		zzverif.Reached("c16-pflaggen-end")
